@@ -74,7 +74,7 @@ def _parse_trace(lines: list[str]) -> list:
                 cur = []
     if cur_label is not None:
         trace.append((cur_label, parse_state_text("\n".join(cur))))
-    return trace
+    return [(lab, st) for lab, st in trace if st]  # drop 'Stuttering' / 'Back to state' markers
 
 
 def run(
@@ -143,7 +143,7 @@ def run(
         r.violated = m.group(1)
     elif re.search(r"Error: Action property (\w+) is violated", out):
         r.violated = re.search(r"Error: Action property (\w+) is violated", out).group(1)
-    elif "Temporal properties were violated" in out:
+    elif re.search(r"Temporal propert(y|ies) .*violated", out):
         r.violated = "temporal"
     elif "Error: Deadlock reached" in out:
         r.violated = "deadlock"
